@@ -17,7 +17,7 @@ from black_it.schedulers.rl.agents.epsilon_greedy import MABEpsilonGreedy
 from black_it.schedulers.rl.envs.mab import MABCalibrationEnv
 from harness.common import Case, f
 from symx.baton import Baton, Deadlock, ThreadKill, make_shims
-from symx.core import PathAbort, Sym, is_sym, lift, schedule_of
+from symx.core import PathAbort, Sym, data_decisions, is_sym, lift, schedule_of
 from symx.npx import NPX, patched, sym_float
 
 LEVEL = "model_checking"
@@ -27,6 +27,7 @@ FUNCTIONS = [
     "black_it.schedulers.rl.rl_scheduler:RLScheduler.end_session", "black_it.schedulers.base:BaseScheduler.session",
     "black_it.schedulers.rl.envs.base:CalibrationEnv.step", "black_it.schedulers.rl.envs.mab:MABCalibrationEnv.get_reward",
     "black_it.schedulers.rl.agents.epsilon_greedy:MABEpsilonGreedy.policy", "black_it.schedulers.rl.agents.epsilon_greedy:MABEpsilonGreedy.learn",
+    "black_it.calibrator:Calibrator.calibrate", "black_it.calibrator:Calibrator._set_samplers_seeds", "black_it.schedulers.rl.rl_scheduler:RLScheduler._set_random_state",
 ]
 NUMBER_MODEL = "R exact: per-batch best losses are symbolic reals (improving or not is decided by the solver); the schedule is a symbolic choice at every synchronisation point"
 EXPLANATION = (
@@ -181,7 +182,7 @@ def _ite(c, a, b):
     return a if c else b
 
 
-def _state_key(ctx, holder):
+def _state_key(ctx, holder, extra=None):
     def key(b):
         sched, agent, env = holder["sched"], holder["agent"], holder["env"]
         from symx.baton import _key
@@ -192,7 +193,8 @@ def _state_key(ctx, holder):
             tuple(_key(x) for x in sched._in_queue.items), tuple(_key(x) for x in sched._out_queue.items),
             sched.__dict__.get("_stopped_value"), tuple((a, _key(r)) for a, r in agent.learned), agent.n_policy,
             _key(sched._best_loss), _key(env._curr_best_loss), tuple(holder.get("chosen", [])),
-            tuple(d for d in ctx.prefix[: ctx.pos] if isinstance(d, bool)),  # data decisions so far
+            data_decisions(ctx),  # data decisions so far (the path condition)
+            extra() if extra else None,
         )
         if ctx.pos < len(ctx.prefix):
             return None  # still replaying the decision prefix of this path: these states were recorded by an earlier path
@@ -264,7 +266,7 @@ def _check(ctx, sessions, agent_kind, losses, res):
             conds.append(lift(r) == z3.If(nt < pt, (pt - nt) / pt, z3.RealVal(0)))
         ctx.prove(z3.And(*conds) if conds else z3.BoolVal(True), "learn_once_per_chosen_batch", "each learn(action, reward): action = sampler that ran, reward = relative improvement of that batch")
     # schedule independence: same data decisions => same sampler sequence on every schedule
-    datakey = tuple(d for d in ctx.prefix[: ctx.pos] if isinstance(d, bool)) if agent_kind != "script" else ()
+    datakey = data_decisions(ctx) if agent_kind != "script" else ()
     first = ctx.persist.setdefault("first_seq", {})
     if datakey not in first:
         first[datakey] = list(chosen)
@@ -366,8 +368,143 @@ def free_run(sessions, agent_kind, Ls):
     return res
 
 
+class ProbeAgent(ScriptAgent):
+    """Scripted choices, but every policy() call also consumes one draw of the agent's generator (as the epsilon-greedy agent
+    does) and records WHICH stream it came from: (seed term, draw counter)."""
+
+    def __init__(self, script, rec, random_state=None):
+        Agent.__init__(self, random_state=random_state)
+        self.script, self.n_policy, self.learned, self.rec = script, 0, [], rec
+
+    def policy(self, state):
+        g = self.random_generator
+        self.rec.append((str(lift(g.seed)), g.k))
+        g.random()
+        return ScriptAgent.policy(self, state)
+
+
+def case_via_calibrator(nb, policy):
+    """The same exchange driven by the real Calibrator.calibrate() (seeding cascade + session + loop). Building a calibrator per
+    path is too slow for all interleavings, so three schedule policies are run: calibration thread first, agent thread first,
+    and strict alternation; the agent's draws must come from the stream determined by the calibrator seed on each of them."""
+    name = f"via-calibrator-{nb}-{policy}"
+
+    def body(ctx):
+        import black_it.calibrator as cal
+        from harness.calib import FreeLoss, ScriptedSampler, make_sampler_class, model_uf, world
+
+        holder, publish, rec = {}, {}, []
+
+        turn = [0]
+
+        def chooser(n, labels):
+            turn[0] += 1
+            if policy == "all":
+                return ctx.choose(n)
+            return {"main-first": 0, "agent-first": n - 1}.get(policy, turn[0] % n)
+
+        def on_state(b):
+            if policy != "all" or "sched" not in publish:
+                return None
+            return _state_key(ctx, publish, lambda: (tuple(rec), str(lift(agent.random_generator.seed)), agent.random_generator.k, c.current_batch_index, len(c.losses_samp)))(b)
+
+        baton = Baton(chooser, on_state)
+        holder["b"] = baton
+        BThread, BQueue = make_shims(lambda: holder["b"])
+
+        class _Threading:
+            Thread = BThread
+
+            def __getattr__(self, n):
+                return getattr(threading, n)
+
+        prop = _install_flag(lambda: holder["b"])
+        chosen = []
+        import black_it.samplers.halton as shalton
+        from harness.detcal import halton_uf, snap_uf
+
+        # the bootstrap Halton sampler's arithmetic (C13's subject) as an uninterpreted function of the symbolic start index
+        with world(argsort_identity=True), patched(shalton, halton=halton_uf, digitize_data=snap_uf), patched(envbase, Queue=BQueue), \
+                patched(rls, threading=_Threading(), float=sym_float, np=NPX), patched(rls.RLScheduler, _stopped=prop):
+            try:
+                samplers = [make_sampler_class("SampA")(1, ctx, tag="A"), make_sampler_class("SampB")(1, ctx, tag="B")]
+                agent = ProbeAgent([1, 0, 2, 1], rec, random_state=ctx.int("agent_ctor_seed", 0))
+                env = MABCalibrationEnv(3)
+                sched = rls.RLScheduler(samplers, agent, env, random_state=ctx.int("sched_ctor_seed", 0))
+                publish.update(sched=sched, agent=agent, env=env, chosen=chosen)
+                class FallingLoss:  # concrete, strictly decreasing: the data flow is not this case's subject (direct-drive cases have symbolic losses)
+                    n = 0
+
+                    def compute_loss(self, sim, real):
+                        self.n += 1
+                        return 1.0 / self.n
+
+                c = cal.Calibrator(loss_function=FallingLoss(), real_data=np.zeros((2, 1)), model=model_uf(1, 2, 1), parameters_bounds=[[0.0], [1.0]],
+                                   parameters_precision=[0.25], ensemble_size=1, scheduler=sched, verbose=False, random_state=ctx.int("S", 0), n_jobs=1)
+                deadlock = None
+                try:
+                    c.calibrate(nb)
+                except Deadlock as e:
+                    deadlock = str(e)
+                chosen.extend(int(x) for x in c.method_samp)
+            finally:
+                baton.kill_all()
+        ctx.prove(z3.BoolVal(deadlock is None), "no_deadlock", str(deadlock))
+        if deadlock is not None:
+            return
+        ctx.prove(z3.BoolVal((len(sched._in_queue.items), len(sched._out_queue.items)) == (0, 0) and not baton.alive()), "no_message_left", "queues empty and agent thread ended after calibrate()")
+        ctx.prove(z3.BoolVal([k for _, k in rec] == list(range(len(rec))) and len({s for s, _ in rec}) == 1), "schedule_independent", f"agent draws come from ONE stream, consecutively: {rec[:4]}")
+        ctx.prove(z3.BoolVal(all("agent_ctor_seed" not in s for s, _ in rec)), "schedule_independent", f"the agent drew from the stream it was CONSTRUCTED with, not the one seeded by the calibration: {rec[:2]}")
+        ctx.sample({"case": name, "agent_draws": rec[:3], "labels": chosen})
+
+    def replay(cex):
+        return replay_via_calibrator(nb)
+
+    return Case(name, body, replay, time_budget=300)
+
+
+def replay_via_calibrator(nb):
+    """Real threads, real calibrator: the agent is constructed with two different seeds; with an early agent thread (the
+    calibration thread is delayed right after start_session) its first draw must not depend on the constructor seed."""
+    import contextlib
+    import io
+
+    import black_it.calibrator as cal
+    from black_it.loss_functions.minkowski import MinkowskiLoss
+
+    def run(agent_seed, delay):
+        draws = []
+
+        class A(MABEpsilonGreedy):
+            def policy(self, obs):
+                s = self.random_generator.bit_generator.state["state"]["state"]
+                draws.append(s)
+                return super().policy(obs)
+
+        class Sched(rls.RLScheduler):
+            def start_session(self):
+                super().start_session()
+                if delay:
+                    time.sleep(0.3)  # let the agent thread run first
+
+        samplers = [RandomUniformSampler(batch_size=1, random_state=0), HaltonSampler(batch_size=1, random_state=1)]
+        sched = Sched(samplers, A(2, 0.5, 0.9, random_state=agent_seed), MABCalibrationEnv(2), random_state=agent_seed + 100)
+        with contextlib.redirect_stdout(io.StringIO()):
+            c = cal.Calibrator(loss_function=MinkowskiLoss(), real_data=np.zeros((2, 1)), model=lambda t, N, s: np.full((N, 1), float(t[0])),
+                               parameters_bounds=[[0.0], [1.0]], parameters_precision=[0.125], ensemble_size=1, scheduler=sched, verbose=False, random_state=7, n_jobs=1)
+            c.model.__name__ = "m"
+            c.calibrate(nb)
+        return draws
+
+    try:
+        a, b = run(11, True), run(12, True)
+    except Exception as e:  # noqa: BLE001
+        return True, f"calibration raised {type(e).__name__}: {e}"
+    return a[:1] != b[:1], f"first generator state seen by the agent with agent/scheduler constructor seeds 11/111: {str(a[:1])[:40]}, with 12/112: {str(b[:1])[:40]} (same calibrator seed; must be equal)"
+
+
 def cases(tier, seed):
-    cs = []
+    cs = [case_via_calibrator(2 if tier == "quick" else 4, pol) for pol in ("main-first", "agent-first", "alternate", "all")]
     for s in ([1], [2], [3], [1, 1], [2, 1], [1, 2]):
         cs.append(case(s, "script"))
     for s in ([2], [1, 1]):
